@@ -629,6 +629,29 @@ func wcRun(id int, sc *wcScen) {
 					lastPattern, lastDir = pat, dirIdx[filepath.Dir(pat)]
 					allPatterns[pat] = lastDir
 				}
+				if strings.ToUpper(st.Req) == "PAUSE" && err == nil && pat != "" {
+					// PAUSE flushes: a client pauses in order to read complete files.  What each file of the session holds at
+					// the moment the request has returned (C07: everything accepted before a flush call returns is in the file)
+					for c := 0; c < sc.Nchan; c++ {
+						name := ds.chanNames[c]
+						for _, t := range []string{"L22", "L3", "OFF"} {
+							var f wcFile
+							switch t {
+							case "L22":
+								f = wcDecodeLJH22(fmt.Sprintf(pat, name, "ljh"), sc.Frame0)
+							case "L3":
+								f = wcDecodeLJH3(fmt.Sprintf(pat, name, "ljh3"), sc.Frame0)
+							case "OFF":
+								f = wcDecodeOFF(fmt.Sprintf(pat, name, "off"), sc.Frame0)
+							}
+							frames := []any{}
+							for _, r := range f.Recs {
+								frames = append(frames, r[0])
+							}
+							vEmit(vmap{"ev": "FilePause", "dir": dirIdx[filepath.Dir(pat)], "c": c, "t": t, "frames": frames, "trailing": f.Trailing})
+						}
+					}
+				}
 				if strings.ToUpper(st.Req) == "STOP" && err == nil && patBefore != "" {
 					wcEmitFiles(sc, ds, patBefore, dBefore, projs, bases)
 					lastPattern = ""
